@@ -45,6 +45,15 @@ InitMsg(st0) ==
     /\ ran    = << >>
     /\ ret    = << >>
 
+ResetMsg(st0) ==            \* same values as InitMsg, as a step (trace specs restart between executions)
+    /\ tstate' = [t \in Threads |-> st0]
+    /\ wopen'  = [t \in Threads |-> TRUE]
+    /\ inst'   = << >>
+    /\ pipe'   = [t \in Threads |-> << >>]
+    /\ batch'  = [t \in Workers |-> << >>]
+    /\ ran'    = << >>
+    /\ ret'    = << >>
+
 St(i) == inst[i].st
 SetSt(i, s) == inst' = [inst EXCEPT ![i].st = s]
 
@@ -147,13 +156,21 @@ Fifo == \A j, k \in 1..Len(ran) :
             /\ ran[j].arg = ran[k].arg /\ inst[ran[j].i].p = inst[ran[k].i].p)
            => ran[j].i < ran[k].i
 (* every packet is in exactly one place *)
+InBatches(i) == UNION {{<<t, k>> : k \in {k \in 1..Len(batch[t]) : batch[t][k][1] = i}} : t \in Workers}
 Accounted == \A i \in DOMAIN inst : St(i) = "queued" =>
     Cardinality(RanOf(i))
       + Cardinality({k \in 1..Len(pipe[inst[i].d]) : pipe[inst[i].d][k] = i})
-      + Cardinality({<<t, k>> \in Workers \X (1..BatchMax) : k <= Len(batch[t]) /\ batch[t][k][1] = i}) = 1
+      + Cardinality(InBatches(i)) = 1
 
 Drained == /\ \A t \in Threads : pipe[t] = << >>
            /\ \A t \in Workers : batch[t] = << >>
+(* cheap form for long traces: only the newest history entry can break the invariants *)
+LastIsFresh == Len(ran) > 0 =>
+    LET r == ran[Len(ran)] IN
+    /\ \A k \in 1..(Len(ran) - 1) : ran[k].i # r.i
+    /\ r.arg = inst[r.i].d
+    /\ r.how = "queued" => IF r.arg = PVT THEN r.on \in Workers ELSE r.on = r.arg
+    /\ r.how = "direct" => r.on = inst[r.i].p
 C05Safety == AtMostOnce /\ RightThread /\ FailureMeansNoRun /\ SuccessMeansRunOrPending
              /\ DirectBeforeReturn /\ Fifo /\ Accounted
 =============================================================================
